@@ -17,6 +17,13 @@ OUTPUTS = ["OUT1", "OUT2", "OUT3"]
 UOD_COMMANDS = ["Set1", "Set3", "Ramp", "LongA", "LongB", "LongC", "Valve", "Boom", "BoomInit", "BadArgs", "Spin"]
 
 
+class NotArchivedTag(Tag):
+    """A UOD-defined tag that opts out of the local archive, the documented way: archive() returns None."""
+
+    def archive(self):
+        return None
+
+
 class SimHardware(HardwareLayerBase):
     """Register memory, write log and fault plan. The only hardware the simulated engine sees."""
 
@@ -193,7 +200,10 @@ def build_probe_uod(hw: SimHardware, plog: ProbeLog, clock_read: Callable[[], fl
         .with_process_value("OUT1")
     )
     for name, unit, value in (extra_tags or []):
-        b = b.with_tag(Tag(name, value=value, unit=unit))
+        if name.startswith("NOARCH"):
+            b = b.with_tag(NotArchivedTag(name, value=value, unit=unit))      # opts out of the archive (archive() -> None)
+        else:
+            b = b.with_tag(Tag(name, value=value, unit=unit))
     for name, units in (extra_cmds or []):
         b = b.with_command_regex_arguments(name, RegexNumber(units=units), noop_exec, init_fn, fin_fn)
     uod = b.build()
